@@ -546,7 +546,7 @@ def replay(shard, rp):
     print('replayed: blocks', res, 'violations', shard.nviolations)
 
 TECHNIQUE = 'boundary recorder on sna2ctl/sna2skool/skool2bin with structural oracles on the emitted control file and a step counter on the decoder (bounded progress)'
-LEVEL_TEXT = ('The real sna2ctl is run on generated images, ranges, options and code maps in all eight supported formats (maps from real trace.py executions and arbitrary address sets); '
+LEVEL_TEXT = ('The real sna2ctl is run on generated images, ranges, options and code maps in all eight supported formats (maps from real trace.py executions of random and call-structured programs, maps of an execution in which every call of such a program is made, and arbitrary address sets); '
               'its output must start at START, strictly increase, end with "i END", put every mapped address in a code block, make sna2skool warning-free with all sub-block '
               'directives on instruction boundaries, and reproduce the bytes through skool2bin; the decoder may not yield more than a quadratic bound of items.')
 LEVEL_NOTE = 'Sampled inputs; termination is restated as bounded progress on a logical step count.'
